@@ -1532,7 +1532,7 @@ pub fn plan(property: &str, quick: bool) -> Plan {
             assumptions: vec!["error precedence is not demanded".into()],
             parts: vec![
                 Part::Custom("fun:c07-product".into(), Box::new(move || sweep("fun:c07-product", c07_product(!quick), c07_focus(), vec!["471", "473", "474", "475", "405", "JOIN", "353"]))),
-                Part::Bfs(Box::new(c07_scn("c07-evolving", !quick)), lim(if quick { 6 } else { 7 }, 3_000_000, t(30.0, 900.0))),
+                Part::Bfs(Box::new(c07_scn("c07-evolving", !quick)), lim(if quick { 6 } else { 7 }, 3_000_000, t(45.0, 900.0))),
             ],
         },
         "C08" => Plan {
